@@ -17,7 +17,8 @@ from vf.firmware import Firmware, patched_serial, TcpFront
 ID = "C16"
 LEVEL = "fault_enumeration"
 SHARDS = {"quick": 8, "thorough": 16}
-RULE = ("cases = (transport serial|socket, greeting start|none|'Grbl 1.1', "
+RULE = ("cases = (transport serial|socket (device replies optionally cut into "
+        "several TCP packets), greeting start|none|'Grbl 1.1', "
         "1..8 statements incl. M114/M105 queries whose report precedes the "
         "ok, per statement: acknowledgement withheld for 0..3 controller "
         "ticks, 0..2 unsolicited lines before it (busy echo, temperature "
@@ -321,7 +322,15 @@ def run_case(case, cl=None):
         with patched_serial(fw):
             session()
     else:
-        front = TcpFront(fw)
+        frag = case.get("frag")
+        split = None
+        if frag == "lf_alone":        # the newline travels in a packet of its own
+            split = lambda b: [b[:-1], b[-1:]]
+        elif frag == "halves":
+            split = lambda b: [b[:len(b) // 2], b[len(b) // 2:]]
+        if frag:
+            cl.add("device_replies_fragmented")
+        front = TcpFront(fw, split)
         try:
             session()
         finally:
@@ -391,6 +400,7 @@ def strategy():
         "handshake_latency": st.sampled_from([0, 40, 120]),
         "second_writer": st.sampled_from([False, False, True]),
         "short_timeout": st.sampled_from([False, False, True]),
+        "frag": st.sampled_from([None, None, "lf_alone", "halves"]),
         "lose_last": st.one_of(st.just(False), st.just(False), st.just(True),
                                st.integers(0, 7))}).map(_finish)
 
